@@ -145,7 +145,7 @@ def build_archives(bdir, variant, extra_defs, log):
 
 
 WRAPS = ["malloc", "calloc", "realloc", "free", "strdup",
-         "readv", "writev", "poll", "fcntl", "close", "dup", "getsockopt", "sendmsg", "recvmsg", "sendto",
+         "readv", "writev", "poll", "fcntl", "close", "dup", "getsockopt", "sendmsg", "recvmsg", "sendto", "epoll_create1",
          "_mpt_abort", "_ZdlPv", "_ZdlPvm", "_ZdaPv",
          # the type registry: entries live as long as the process (a world may book them to the process instead of the run)
          "mpt_type_traits", "mpt_interface_traits", "mpt_metatype_traits", "mpt_named_traits",
